@@ -236,7 +236,10 @@ bool Instance::rewind() {
         return false;
     }
     if (env->done) {
+        // the last step only marked the end of the script; undo exactly that
         env->done = false;
+        set_error(env->serror, SCRIPT_ERR_UNKNOWN_ERROR);
+        return true;
     }
     return RewindScript(*env);
 }
